@@ -593,6 +593,9 @@ func c07Scenarios(c *core.Ctx, race bool) []core.Scenario {
 		}
 		out = append(out, c07IdleThenBurst(fmt.Sprintf("idle-then-burst-%d-race%v", i, race), iv, c.Pick(250, 1500), c.Seed*7+int64(i)))
 	}
+	for capy := 0; capy <= 2 && !race; capy++ {
+		out = append(out, c07NeverBlocks(fmt.Sprintf("never-blocks-cap%d", capy), capy))
+	}
 	for i := 0; i < 4; i++ {
 		if race && i%2 == 1 {
 			continue
@@ -664,7 +667,7 @@ func init() {
 		Meta: func(c *core.Ctx) core.Meta {
 			return core.Meta{
 				Level: "exploration",
-				Rule: "configurations (channelCapacity, bufferSizeMaximum, loader interval) in {0,1,2,3} x {0,1,2,5} x {50us,1ms} (quick: 20 of 32) plus 'no limit' buffer sizes {MaxInt, MaxInt32+1, 2^40, MaxInt32, 70000} set through the constructor or SetBufferSizeMaximum; per configuration short concurrent histories (1..3 producers, 1..3 consumers using Poll / TakeWithTimeout / GetChannel receive, <= 24 ops) checked by porcupine against the relaxed bounded FIFO model (FIFO strict, Offer ok only below cap+buf, Full legal only when the overflow can be at its maximum, Empty/Timeout always legal) and long runs (thousands of unique values, 1..4 x 1..4 goroutines, PRNG yields at loader/Offer/Poll hook points) checked for exactly-once / no invention / no loss after a drain / per-producer order / held <= cap+buf at every instant / Count() <= cap+buf / Count() = accepted-delivered at quiescence; the overflow bound changed on the LIVE queue (SetBufferSizeMaximum to 0..9, below and above what is buffered) between Offers, Polls and loader passes, sequentially and with a concurrent consumer: everything accepted comes out once in FIFO order, accepted only below capacity + current maximum, Full only at or above the current maximum; " +
+				Rule: "configurations (channelCapacity, bufferSizeMaximum, loader interval) in {0,1,2,3} x {0,1,2,5} x {50us,1ms} (quick: 20 of 32) plus 'no limit' buffer sizes {MaxInt, MaxInt32+1, 2^40, MaxInt32, 70000} set through the constructor or SetBufferSizeMaximum; per configuration short concurrent histories (1..3 producers, 1..3 consumers using Poll / TakeWithTimeout / GetChannel receive, <= 24 ops) checked by porcupine against the relaxed bounded FIFO model (FIFO strict, Offer ok only below cap+buf, Full legal only when the overflow can be at its maximum, Empty/Timeout always legal) and long runs (thousands of unique values, 1..4 x 1..4 goroutines, PRNG yields at loader/Offer/Poll hook points) checked for exactly-once / no invention / no loss after a drain / per-producer order / held <= cap+buf at every instant / Count() <= cap+buf / Count() = accepted-delivered at quiescence; the overflow bound changed on the LIVE queue (SetBufferSizeMaximum to 0..9, below and above what is buffered) between Offers, Polls and loader passes, sequentially and with a concurrent consumer: everything accepted comes out once in FIFO order, accepted only below capacity + current maximum, Full only at or above the current maximum; Offer / Poll / Count with a loader interval of 4 s, a non-empty overflow buffer and no consumer (capacity 0, 1, 2): no call parks on a lock of the queue; " +
 					"the drain uses only Poll/TakeWithTimeout after producers stopped: stranded = items held and >= 4 complete loader passes since the last successful removal, or no library goroutine able to make progress; back-pressure runs (retrying producers against ONE consumer that calls the blocking Take() exactly once per value: a Take left waiting while accepted values are held, with neither a delivery nor an acceptance for 3 s AND either 200000 refused Offers meanwhile or no library goroutine able to act in two successive dumps, is a lost wake-up - the verdict is taken on logical time, never on wall time alone); directed scenarios park the loader (in hand, after closed check, before sleep), Poll after its wake-up and Offer before its wake-up; plain ChannelQueue histories (Offer/Poll/PutWithTimeout/TakeWithTimeout) against BoundedFIFO; hundreds of rounds of {idle for about 100 loader intervals, burst through the overflow list, complete drain}; five other instantiations alive in one process (element types fmt.Stringer, error, any, func, *struct) pushed through the overflow list; all repeated in the -race build. distinct_nontrivial = distinct scenarios + distinct hook-trace signatures",
 				Assumptions: []string{"Poll->Empty and TakeWithTimeout->Timeout are always legal for the buffered queue (statement: 'nothing immediately available')",
 					"nothing-stranded and linearizability are only claimed for channelCapacity >= 1; for capacity 0 exactly-once, order and conservation are checked",
